@@ -530,5 +530,7 @@ pub fn run(p: &Params) -> Run {
         let seq: Vec<Res> = (0..k).map(|_| gen_result(&mut rng)).collect();
         emit(&mut run, &format, &seq);
     }
+    // the end-to-end stream: the same property seen from raw texts and raw file bytes (`e2e.rs`, Lean `Pipeline.runText`)
+    crate::e2e::stream(&mut run, &mut Rng::new(p.seed ^ 0xe2e17), p.n(250, 3000), "print");
     run
 }
